@@ -39,6 +39,9 @@ class Infra(Exception):
 # Lean side: build + audit
 # ---------------------------------------------------------------------------------------------
 
+ESCALATE = 3      # extra quick rounds when the anchored source drifted from the validated pins
+
+
 def strip_comments(src):
     """remove -- line comments and /- -/ block comments (nesting aware) from Lean source"""
     out = []
@@ -232,23 +235,37 @@ def run(pid, tier, seed, args, sw):
     discharged = [n for n in names if axioms.get(n) is not None and set(axioms[n]) <= ALLOWED_AXIOMS]
 
     # -- 2. scenarios ------------------------------------------------------------------------
+    import drift
+    source_drift = [] if args.replay else drift.drifted(pid, prop.family)
     if args.replay:
         d = json.load(open(os.path.join(VERIF, args.replay) if not os.path.isabs(args.replay) else args.replay))
         scns = [Scenario.from_json(d["scenario"])]
     else:
         rng = random.Random((seed * 1000003) ^ int(hashlib.sha1(pid.encode()).hexdigest()[:8], 16))
         scns = corpus(pid) + prop.generate(rng, tier)
+        if tier == "quick" and source_drift and not getattr(prop, "exhaustive_space", False):
+            # anchored code differs from the tree the model was validated against: re-establish the correspondence on
+            # a larger sample (ESCALATE extra quick-sized rounds from derived seeds)
+            for r in range(ESCALATE):
+                extra = prop.generate(random.Random(rng.getrandbits(64)), tier)
+                for s in extra:
+                    s.name = "x%d_%s" % (r, s.name)
+                scns += extra
     for i, s in enumerate(scns):
         if not s.name:
             s.name = "s%d" % i
 
     # -- 3. run both sides -------------------------------------------------------------------
+    import coverage as cov_mod
+    cov = cov_mod.Coverage(pid)
+    cov.start()
     impl = {}
     for s in scns:
         try:
             impl[s.name] = prop.run_impl(s)
         except Exception as e:  # the harness itself failed: infrastructure, not a verdict
             raise Infra("harness failure on %s: %s\n%s" % (s.name, e, traceback.format_exc()))
+    cov.stop()
     model = common.run_model(scns)
 
     # -- 4. correspondence + oracles -----------------------------------------------------------
@@ -278,7 +295,8 @@ def run(pid, tier, seed, args, sw):
 
     # -- failing-input search when correspondence / proofs are broken but no oracle failed --------
     searched = 0
-    if (divergences or proof_problems) and not violations and not args.replay:
+    if (divergences or proof_problems) and not violations and not args.replay \
+            and os.environ.get("VERIF_SEARCH", "1") != "0":
         rng2 = random.Random(seed + 7919)
         for s in prop.search(rng2, tier, [Scenario.from_json(d["scenario"]) for d in divergences]):
             searched += 1
@@ -344,6 +362,8 @@ def run(pid, tier, seed, args, sw):
             "distribution": stats,
             "divergences": len(divergences), "failing_input_search": searched,
             "known_findings_seen": {k: len(v) for k, v in known_hits.items()},
+            "anchored_line_coverage": cov.report(),
+            "source_drift": source_drift[:40],
             "exhaustive": bool(getattr(prop, "exhaustive_space", False)) and tier == "quick",
         },
         "assumptions": prop.assumptions,
